@@ -369,7 +369,7 @@ def oracle(t, r, xs, lay):
     smax = max(abs(s) for s in rs) or 1.0
     for i in range(n):
         if abs(rs[i] - Sf[i]) > 1e-7 * smax:
-            return "slope[%d] = %r but the natural spline through the final table has %r" % (i, Sf[i], rs[i])
+            return "slope[%d] = %r but the natural spline through the final table has %r" % (i, Sf[i], float(rs[i]))
     # construction: reference smoothing repair
     ref = ref_getslopes(t)
     if ref is None:
@@ -516,8 +516,7 @@ def correspond(ctx):
     for k, t in enumerate(tables):
         t["id"] = k
     fails, dis, st = evaluate(ctx, tables)
-    for f in fails:
-        ctx.fail(f.pop("what"), **f)
+    report_failures(ctx, fails)
     sres = solver_pairs(ctx)
     cov = ctx.res.cov
     cov["evaluations"] = len(tables) + sres["runs"]
@@ -539,6 +538,15 @@ def correspond(ctx):
     return dis
 
 
+def report_failures(ctx, fails, cap=5):
+    """The smallest failing tables first, at most `cap` replay files."""
+    fails = sorted(fails, key=lambda f: len(f["table"]["B"]))
+    ctx.res.cov["failing_tables"] = len(fails)
+    for f in fails[:cap]:
+        f = dict(f)
+        ctx.fail(f.pop("what"), **f)
+
+
 def search(ctx, broken):
     """A proof or the correspondence broke: look for a table on which the PROPERTY fails on the
     real code (oracle only, more and nastier tables)."""
@@ -552,7 +560,7 @@ def search(ctx, broken):
     for k, t in enumerate(tables):
         t["id"] = k
     fails, _, _ = evaluate(ctx, tables, with_model=False)
-    for f in fails[:3]:
+    for f in sorted(fails, key=lambda f: len(f["table"]["B"]))[:3]:
         found.append(f)
     return found
 
